@@ -1514,3 +1514,87 @@ Proof.
   destruct (client_poll_fifo (pr <| p_tick := p_tick pr + 1 |>) 34 h (fo_cli_poll o)) as [_ H].
   exact H.
 Qed.
+
+(* 5c. the host's reply to RequestInitialSync: the snapshot, then exactly one FinishedInitialSync *)
+Lemma p_out_serve_all pr c : p_out (serve_all pr c).1 = p_out pr.
+Proof. unfold serve_all. case_match; reflexivity. Qed.
+
+Lemma serve_all_msgs pr c : Forall (fun m => is_fin m = false) (serve_all pr c).2.
+Proof.
+  unfold serve_all. case_match; cbn [snd]; [|constructor].
+  apply Forall_fmap, Forall_forall. intros [a v] _. reflexivity.
+Qed.
+
+Lemma snapshot_entity_msgs_nofin pr e en : Forall (fun m => is_fin m = false) (snapshot_entity_msgs pr e en).
+Proof.
+  unfold snapshot_entity_msgs. repeat case_match; try constructor; [reflexivity|].
+  apply Forall_forall. intros m Hm. apply elem_of_list_omap in Hm as ([t c] & _ & Hm).
+  repeat case_match; try discriminate; injection Hm as <-; reflexivity.
+Qed.
+
+Lemma snapshot_parent_msgs_nofin pr e en : Forall (fun m => is_fin m = false) (snapshot_parent_msgs pr e en).
+Proof. unfold snapshot_parent_msgs. repeat case_match; repeat constructor. Qed.
+
+Lemma Forall_concat_fmap {A B} (P : B -> Prop) (f : A -> list B) l :
+  (forall x, Forall P (f x)) -> Forall P (concat (f <$> l)).
+Proof. intros H. induction l as [|x l IH]; cbn; [constructor|]. apply Forall_app. auto. Qed.
+
+Lemma build_full_sync_spec pr :
+  p_out (build_full_sync pr).1 = p_out pr /\ Forall (fun m => is_fin m = false) (build_full_sync pr).2.
+Proof.
+  unfold build_full_sync. cbv zeta.
+  pose proof (p_out_serve_all pr AImage) as O1. pose proof (serve_all_msgs pr AImage) as M1.
+  destruct (serve_all pr AImage) as [p1 l1]. cbn [fst snd] in O1, M1.
+  pose proof (p_out_serve_all p1 AMesh) as O2. pose proof (serve_all_msgs p1 AMesh) as M2.
+  destruct (serve_all p1 AMesh) as [p2 l2]. cbn [fst snd] in O2, M2.
+  pose proof (p_out_serve_all p2 AAudio) as O3. pose proof (serve_all_msgs p2 AAudio) as M3.
+  destruct (serve_all p2 AAudio) as [p3 l3]. cbn [fst snd] in *.
+  split; [congruence|].
+  repeat apply Forall_app_2; auto.
+  - apply Forall_concat_fmap. intros [e en]. apply snapshot_entity_msgs_nofin.
+  - apply Forall_concat_fmap. intros [e en]. apply snapshot_parent_msgs_nofin.
+  - unfold snapshot_material_msgs. case_match; [|constructor].
+    apply Forall_fmap, Forall_forall. intros [a v] _. reflexivity.
+Qed.
+
+Lemma p_out_send_list c ms : forall pr,
+  p_out (foldl (fun pr m => send pr c m) pr ms) = p_out pr ++ ((fun m => (c, m)) <$> ms).
+Proof.
+  induction ms as [|m ms IH]; intros pr; cbn [foldl fmap list_fmap]; [symmetry; apply app_nil_r|].
+  rewrite IH. unfold send. cbn. rewrite <- app_assoc. reflexivity.
+Qed.
+
+(* CSendInitialSync c: the messages of build_full_sync, then one FinishedInitialSync, all to c,
+   and FinishedInitialSync is the last message of the batch and the only one *)
+Theorem send_initial_sync_batch pr c :
+  let ms := (build_full_sync pr).2 in
+  p_out (apply_cmd pr (CSendInitialSync c)) = p_out pr ++ ((fun m => (c, m)) <$> ms) ++ [(c, MFinInit)]
+  /\ Forall (fun m => is_fin m = false) ms.
+Proof.
+  cbv zeta. destruct (build_full_sync_spec pr) as [Ho Hm]. split; [|exact Hm].
+  unfold apply_cmd. destruct (build_full_sync pr) as [p' ms]. cbn [fst snd] in *.
+  unfold send at 1. cbn. rewrite p_out_send_list, Ho, <- app_assoc. reflexivity.
+Qed.
+
+(* the link is FIFO: what a frame sent to dst is appended, in order, to dst's inbox from src *)
+Lemma deliver_out_inbox out : forall (g : global) src dst pd,
+  g !! dst = Some pd ->
+  exists pd', deliver_out g src out !! dst = Some pd'
+    /\ inbox pd' src = inbox pd src ++ (snd <$> filter (fun x => x.1 = dst) out).
+Proof.
+  induction out as [|[d m] out IH]; intros g src dst pd Hg.
+  - exists pd. split; [exact Hg|]. cbn. symmetry. apply app_nil_r.
+  - unfold deliver_out. cbn [foldl]. fold (deliver_out
+      (match g !! d with
+       | Some pd0 => <[d := pd0 <| n_inbox := <[src := default [] (n_inbox pd0 !! src) ++ [m]]> (n_inbox pd0) |>]> g
+       | None => g end) src out).
+    rewrite filter_cons. cbn [fst]. destruct (decide (d = dst)) as [->|Hne].
+    + rewrite Hg.
+      destruct (IH (<[dst := pd <| n_inbox := <[src := default [] (n_inbox pd !! src) ++ [m]]> (n_inbox pd) |>]> g)
+                  src dst _ (lookup_insert _ _ _)) as (pd' & H1 & H2).
+      exists pd'. split; [exact H1|]. rewrite H2. unfold inbox at 1. cbn. rewrite lookup_insert. cbn.
+      rewrite <- app_assoc. reflexivity.
+    + destruct (g !! d) as [pd0|] eqn:Hd.
+      * apply IH. etrans; [apply lookup_insert_ne; exact Hne|exact Hg].
+      * apply IH. exact Hg.
+Qed.
